@@ -299,9 +299,31 @@ func lifeMain(args []string) error {
 	held := len(heldOpen)
 	heldOpenMu.Unlock()
 	fatal := 0
+	// every event the services emitted: does it serialise, and do its payload fields agree with each other?
+	evTotal, evJSONBad, evPayloadBad := 0, 0, 0
+	var evSamples []map[string]interface{}
 	for _, e := range hub.Since(0) {
 		if e.Map["type"] == "fatal" {
 			fatal++
+		}
+		evTotal++
+		if e.JSONErr != "" {
+			evJSONBad++
+			if len(evSamples) < 10 {
+				evSamples = append(evSamples, map[string]interface{}{"problem": "json: " + e.JSONErr, "category": fmt.Sprint(e.Map["category"]), "type": fmt.Sprint(e.Map["type"])})
+			}
+		}
+		if hx, ok := e.Map["payload-hex"].(string); ok {
+			n, isInt := e.Map["payload-length"].(int)
+			raw, _ := hex.DecodeString(hx)
+			txt, hasTxt := e.Map["payload"].(string)
+			if !isInt || len(hx) != 2*n || len(raw) != n || (hasTxt && len(txt) == n && txt != string(raw)) {
+				evPayloadBad++
+				if len(evSamples) < 10 {
+					evSamples = append(evSamples, map[string]interface{}{"problem": fmt.Sprintf("payload-hex has %d digits, payload-length is %v", len(hx), e.Map["payload-length"]),
+						"category": fmt.Sprint(e.Map["category"]), "type": fmt.Sprint(e.Map["type"])})
+				}
+			}
 		}
 	}
 	o, err := newJSONOut(*out)
@@ -316,7 +338,8 @@ func lifeMain(args []string) error {
 	sort.Strings(keys)
 	o.Put(map[string]interface{}{"baseline": base, "after_settle": afterSettle, "idle1": h1, "idle2": h2, "final": final,
 		"probe_ok": probeOK, "recovered_panics": fatal, "scenarios": len(scs), "results": results,
-		"held_open_by_lab": held, "waited_ms": waited})
+		"held_open_by_lab": held, "waited_ms": waited,
+		"events": map[string]interface{}{"total": evTotal, "unserialisable": evJSONBad, "payload_fields_disagree": evPayloadBad, "samples": evSamples}})
 	note("written")
 	return nil
 }
